@@ -60,6 +60,13 @@ def work(ctx, tier):
             # a before_sleep hook that fails on one particular retry (or always): the backoff it announces still has to happen
             sc["fault"] = {"kind": "hook", "hook": "before_sleep", "at": rng.choice([0, 1, 2, "always"]), "exc": rng.choice(["RuntimeError", "ValueError", "KeyError"])}
             ctx.inc("scenarios_with_raising_before_sleep")
+        if k % 8 == 3:
+            # long horizons: a deadline of days and backoffs of hours (batch jobs, Retry-After from a maintenance window) - one SLEEP is
+            # still one sleeper call with the whole delay
+            sc["cfg"]["deadline_s"] = 400000.0
+            for c in sc["calls"]:
+                c["strat_values"] = [rng.choice([3600.0, 3600.0 + gen.G, 4000.0, 7200.0, 9000.0, 86400.0, 0.5]) for _ in c["strat_values"]]
+            ctx.inc("scenarios_with_backoffs_of_hours")
         for e in common.pick_entries(rng, rig.ENTRIES, 3):
             _one(ctx, sc, e, stats)
         ctx.inc("random_scenarios")
@@ -69,6 +76,7 @@ def work(ctx, tier):
 
 def conclude(ctx):
     floors = {
+        "scenarios_with_backoffs_of_hours": (ctx.cnt["scenarios_with_backoffs_of_hours"], 200),
         "granted_retries": (ctx.cnt["granted_retries"], 5000),
         "decision:sleep": (ctx.cnt["decision:sleep"], 1000),
         "decision:defer": (ctx.cnt["decision:defer"], 300),
